@@ -62,6 +62,7 @@ def atomicity_oracle(run, injected: str = "", exempt_msg=None) -> tuple[list[dic
     keys: set = set()
     groups = oracles.Groups(run.commits)
     by_group: dict[int, list[dict]] = {}
+    tl_cache: dict = {}
     for a in run.audit:
         by_group.setdefault(groups.of(a["seq"]), []).append(a)
     for g, rows in by_group.items():
@@ -81,6 +82,15 @@ def atomicity_oracle(run, injected: str = "", exempt_msg=None) -> tuple[list[dic
                 est = None
             keys.add(f"{e['b']}:{est}:{handler}:{injected}")
             if not match:
+                # no status row in this commit: the completion may have been committed EARLIER (a second handler
+                # reporting the same, already durable outcome - redundant, but "a completion event for a stage
+                # whose completion was not committed" it is not).  Phantom = the entity is not durably complete
+                # (with that outcome) once this commit is done.
+                tl = tl_cache.setdefault("tl", oracles.Timeline(run.audit))
+                now = tl.at(e["d"], groups.maxes[g]) if 0 <= g < len(groups.maxes) else None
+                if now in oracles.COMPLETE | {"REDIRECT"} and (not est or est == now):
+                    obs["redundant_completion_events"] += 1
+                    continue
                 out.append(viol(f"C13/phantom-event:{e['b']}", f"event {e['b']} (seq {e['a']}) for {kind} {e['d']} committed by {handler} without a completion status row of that {kind} in the same commit"))
             elif est and match[0]["d"] != est:
                 out.append(viol(f"C13/event-status-mismatch:{e['b']}", f"event says {est}, row written {match[0]['d']}"))
